@@ -274,7 +274,13 @@ bool Directory::exists(const String& dir)
 
 bool Directory::create(const String& dir)
 {
+#ifdef _WIN32
   String parent = File::getDirectoryName(dir);
+#else
+  // mkdir and stat split at '/' only: a backslash is part of a name here, not a separator
+  const char* lastSlash = dir.findLast('/');
+  String parent = lastSlash ? dir.substr(0, lastSlash - (const char*)dir) : String(".");
+#endif
   if(parent != "." && !parent.isEmpty() && !Directory::exists(parent))
   {
     if(!Directory::create(parent))
